@@ -45,7 +45,7 @@ func c07Raw(thorough bool) *explore.Scenario {
 		Run: func(x *explore.X) (r explore.Result) {
 			hellos := c34Corpus()
 			src := hellos[x.Choose("hello", len(hellos))]
-			kind := x.Choose("kind", 5)   // 0 intact, 1 byte value, 2 truncation, 3 extension body truncated with fixed prefixes, 4 16-bit word set to 0000/ffff
+			kind := x.Choose("kind", 6)   // 0 intact, 1 byte value, 2 truncation, 3 extension body truncated with fixed prefixes, 4 16-bit word set to 0000/ffff, 5 record-layer version x legacy_version from the TLS version menu
 			flags := x.Choose("flags", 8) // AllowBluntMimicry, RealPSKResumption, AlwaysAddPadding
 			msg := src.msg
 			var in []byte
@@ -65,6 +65,14 @@ func c07Raw(thorough bool) *explore.Scenario {
 				}
 				in = recordOf(c)
 				desc = fmt.Sprintf("byte[%d]=%#02x", pos, val)
+			case 5:
+				vs := []uint16{0x0300, 0x0301, 0x0302, 0x0303, 0x0304}
+				rv, hv := vs[x.Choose("pos", 5)], vs[x.Choose("val", 5)]
+				c := append([]byte(nil), msg...)
+				c[4], c[5] = byte(hv>>8), byte(hv)
+				in = recordOf(c)
+				in[1], in[2] = byte(rv>>8), byte(rv)
+				desc = fmt.Sprintf("record-version=%04x,legacy_version=%04x", rv, hv)
 			case 4:
 				ps := positionsFor(len(msg)-1, thorough)
 				pos := ps[x.Choose("pos", len(ps))]
@@ -455,7 +463,7 @@ func c07Scenarios(thorough bool) []*explore.Scenario {
 func init() {
 	register(&Prop{ID: "C07", Level: "exploration", Variant: "A", Scenarios: c07Scenarios,
 		Run: func(c *explore.Check, thorough bool) {
-			c.Rule = "small-scope exhaustive edits of seed inputs. Raw: every corpus ClientHello (all IDs, custom, ECH outer, PSK) x {intact, every byte position x value menu, every 16-bit word set to 0000/ffff, record truncated to every length, every extension body truncated with fixed prefixes} x all 8 Fingerprinter flag sets through FingerprintClientHello (and FromRaw); extension Write on every body prefix and every byte x 4 values and every 16-bit word x {0000, ffff} for every extension value of the C08 table; JSON: the repository's 4 documents + renderings of corpus hellos x {every subset of the 3 top-level keys x 7 retypings, every extension-object field removed / retyped, text truncated}; tlsfingerprint maps derived from every corpus hello x {intact, each key removed, each value truncated to 0..8 bytes, extended by 1..3 bytes}. Oracle: the importers never panic (watchdog 60 s); for strictly valid inputs (unedited hellos / documents / maps) the returned spec must ApplyPreset + BuildHandshakeState without panicking (for malformed inputs a spec tripping ApplyPreset's assertions is counted, not flagged). distinct = case"
+			c.Rule = "small-scope exhaustive edits of seed inputs. Raw: every corpus ClientHello (all IDs, custom, ECH outer, PSK) x {intact, every byte position x value menu, every 16-bit word set to 0000/ffff, record-layer version x legacy_version over {0300..0304}^2, record truncated to every length, every extension body truncated with fixed prefixes} x all 8 Fingerprinter flag sets through FingerprintClientHello (and FromRaw); extension Write on every body prefix and every byte x 4 values and every 16-bit word x {0000, ffff} for every extension value of the C08 table; JSON: the repository's 4 documents + renderings of corpus hellos x {every subset of the 3 top-level keys x 7 retypings, every extension-object field removed / retyped, text truncated}; tlsfingerprint maps derived from every corpus hello x {intact, each key removed, each value truncated to 0..8 bytes, extended by 1..3 bytes}. Oracle: the importers never panic (watchdog 60 s); for strictly valid inputs (unedited hellos / documents / maps) the returned spec must ApplyPreset + BuildHandshakeState without panicking (for malformed inputs a spec tripping ApplyPreset's assertions is counted, not flagged). distinct = case"
 			c.Assumptions = []string{"model checking cannot quantify over arbitrary bytes: the claim is the small-scope one (single edits from fixed menus on valid seeds)"}
 			runAll(c, c07Scenarios(thorough), 0)
 			c.Gate(c.Total.Counters["specs_returned"] > 5000, "non-vacuity: %d specs returned", c.Total.Counters["specs_returned"])
